@@ -43,15 +43,23 @@ Proof. intros H. unfold drun, d_str. rewrite rd_lp4_put by exact H. reflexivity.
 
 (** one step of a round-trip proof: run the next reader of a [dbind] chain on the next written field *)
 Ltac rt_side :=
-  first [ assumption | reflexivity | (unfold in_i32, in_i64, len32 in *; cbn; lia) ].
+  first [ assumption | reflexivity | (unfold in_i32, in_i64, len32 in *; lia) ].
+Ltac rt_prim :=
+  lazymatch goal with
+  | |- drun d_str _ = _ => apply drun_str; rt_side
+  | |- drun d_u8 _ = _ => apply drun_u8; rt_side
+  | |- drun d_u16 _ = _ => apply drun_u16; rt_side
+  | |- drun d_u32 _ = _ => apply drun_u32; rt_side
+  | |- drun d_u64 _ = _ => apply drun_u64; rt_side
+  | |- drun d_i32 _ = _ => apply drun_i32; rt_side
+  | |- drun d_i64 _ = _ => apply drun_i64; rt_side
+  | |- drun d_bool _ = _ => apply drun_bool
+  | |- drun (dalloc _) _ = _ => apply drun_dalloc
+  | |- drun (dret _) _ = _ => apply drun_dret
+  end.
 Ltac rt_step :=
   rewrite <- ?app_assoc;
-  first
-    [ erewrite drun_bind_ok by (first
-        [ apply drun_str; rt_side | apply drun_u8; rt_side | apply drun_u16; rt_side | apply drun_u32; rt_side
-        | apply drun_u64; rt_side | apply drun_i32; rt_side | apply drun_i64; rt_side | apply drun_bool
-        | apply drun_dalloc | apply drun_dret ])
-    | rewrite drun_dret ].
+  first [ erewrite drun_bind_ok by rt_prim | rewrite drun_dret ].
 
 (** * every reader returns a suffix of its input *)
 Definition shrinks {A} (m : dec A) : Prop :=
